@@ -166,6 +166,14 @@ func (c *Ctx) serverModel() *serverModel {
 			}
 		}
 	}
+	// newConn may also be called at the start of the per-connection goroutine
+	if m.newConn == nil && m.connFn != nil {
+		for _, ci := range an.Calls(m.connFn) {
+			if call, ok := ci.(*ssa.Call); ok && an.CalleeIs(ci.Common(), G, "newConn") {
+				m.newConn = call
+			}
+		}
+	}
 	if m.accept == nil || m.newConn == nil || m.connGo == nil {
 		c.R.Fatal("Run: cannot locate Accept / newConn / per-connection go (accept=%v newConn=%v go=%v)", m.accept != nil, m.newConn != nil, m.connGo != nil)
 		return nil
